@@ -709,17 +709,69 @@ func canon(n *XNode) string {
 }
 
 type XMLCase struct {
-	Root *XNode `json:"root"`
+	Root   *XNode      `json:"root"`
+	Prolog [][2]string `json:"prolog,omitempty"` // processing instructions (target, text) and directives ("!", text) before the root
+}
+
+func genProlog(t *rapid.T) [][2]string {
+	var out [][2]string
+	if rapid.IntRange(0, 2).Draw(t, "xmldecl") == 0 {
+		out = append(out, [2]string{"xml", `version="1.0" encoding="UTF-8"`})
+	}
+	seen := map[string]bool{}
+	for i := rapid.IntRange(0, 2).Draw(t, "npi"); i > 0; i-- {
+		tg := rapid.SampledFrom([]string{"page", "php-settings", "_under", "pp", "coolioo", "p_p", "style-sheet"}).Draw(t, "pit")
+		if seen[tg] {
+			continue
+		}
+		seen[tg] = true
+		out = append(out, [2]string{tg, rapid.SampledFrom([]string{`a="1"`, `render="fast" x="y"`, "plain words"}).Draw(t, "pii")})
+	}
+	if rapid.IntRange(0, 3).Draw(t, "dir") == 0 {
+		out = append(out, [2]string{"!", "DOCTYPE " + rapid.SampledFrom([]string{"root", "config system \"blah\""}).Draw(t, "dirt")})
+	}
+	return out
+}
+
+// prologOf reads the processing instructions and directives of yq's output with encoding/xml.
+func prologOf(text string) ([][2]string, error) {
+	dec := xml.NewDecoder(strings.NewReader(text))
+	var out [][2]string
+	for {
+		tok, err := dec.Token()
+		if err == io.EOF {
+			return out, nil
+		}
+		if err != nil {
+			return nil, err
+		}
+		switch x := tok.(type) {
+		case xml.ProcInst:
+			out = append(out, [2]string{x.Target, string(x.Inst)})
+		case xml.Directive:
+			out = append(out, [2]string{"!", string(x)})
+		}
+	}
 }
 
 func checkXML(c XMLCase) hx.Verdict {
 	var b strings.Builder
+	truth := model.NewMap()
+	for _, p := range c.Prolog {
+		if p[0] == "!" {
+			b.WriteString("<!" + p[1] + ">\n")
+			truth.Set("+directive", model.NewStr(p[1]))
+		} else {
+			b.WriteString("<?" + p[0] + " " + p[1] + "?>\n")
+			truth.Set("+p_"+p[0], model.NewStr(p[1]))
+		}
+	}
 	c.Root.text(&b)
 	text := b.String()
 	if _, err := parseXTree(text); err != nil {
 		return hx.Disc("generator_unsound")
 	}
-	truth := model.NewMap().Set(c.Root.Name, c.Root.value())
+	truth.Set(c.Root.Name, c.Root.value())
 	got, o := runJSON(".", text, "xml")
 	if v := crash(o, text); v != nil {
 		return *v
@@ -743,6 +795,12 @@ func checkXML(c XMLCase) hx.Verdict {
 	}
 	if canon(back) != canon(c.Root) {
 		return hx.Bad("", "XML encode: encoding/xml reads %s from yq's output, expected %s (output %q)", canon(back), canon(c.Root), enc.Out)
+	}
+	if len(c.Prolog) > 0 {
+		pl, err := prologOf(enc.Out)
+		if err != nil || fmt.Sprint(pl) != fmt.Sprint(c.Prolog) {
+			return hx.Bad("", "XML encode: processing instructions / directives read back as %q (err %v), expected %q (output %q)", pl, err, c.Prolog, enc.Out)
+		}
 	}
 	rt, o2 := runPair("to_xml | from_xml", truth.JSON())
 	if v := crash(o2, "to_xml|from_xml"); v != nil {
@@ -903,6 +961,8 @@ type LuaCase struct {
 	Doc string `json:"doc"`
 }
 
+var luaCtl = []string{"esc\x1b[0m", "\x0e\x0f", "del\x7f", "\x1f", "bel\x07", "\x10\x11\x12", "cr\rlf", "ff\x0cvt\x0b", "\x19\x1a", "\x1c\x1d\x1e\x08"}
+
 func genLuaDoc(t *rapid.T, depth int) *model.Value {
 	k := rapid.IntRange(0, 8).Draw(t, "lk")
 	if depth <= 0 {
@@ -910,6 +970,9 @@ func genLuaDoc(t *rapid.T, depth int) *model.Value {
 	}
 	switch {
 	case k <= 1:
+		if rapid.IntRange(0, 5).Draw(t, "lctl") == 0 {
+			return model.NewStr(rapid.SampledFrom(luaCtl).Draw(t, "lc"))
+		}
 		return model.NewStr(genStr(t, "ls"))
 	case k == 2:
 		return model.NewInt(int64(rapid.IntRange(-100, 100000).Draw(t, "li")))
@@ -1120,9 +1183,17 @@ func TestProp(t *testing.T) {
 	hx.RunProperty(t,
 		hx.NewSub("props", 2500, 20000, genProps, checkProps),
 		hx.NewSub("csv", 2500, 20000, genCSV, checkCSV),
-		hx.NewSub("xml", 2500, 20000, func(t *rapid.T) XMLCase { return XMLCase{Root: genX(t, rapid.IntRange(0, 3).Draw(t, "depth"))} }, checkXML),
+		hx.NewSub("xml", 2500, 20000, func(t *rapid.T) XMLCase {
+			c := XMLCase{Root: genX(t, rapid.IntRange(0, 3).Draw(t, "depth"))}
+			if rapid.IntRange(0, 2).Draw(t, "prolog") == 0 {
+				c.Prolog = genProlog(t)
+			}
+			return c
+		}, checkXML),
 		hx.NewSub("toml", 2500, 20000, genTOML, checkTOML),
-		hx.NewSub("lua", 2500, 20000, func(t *rapid.T) LuaCase { return LuaCase{Doc: genLuaDoc(t, rapid.IntRange(0, 3).Draw(t, "depth")).JSON()} }, checkLua),
+		hx.NewSub("lua", 2500, 20000, func(t *rapid.T) LuaCase {
+			return LuaCase{Doc: genLuaDoc(t, rapid.IntRange(0, 3).Draw(t, "depth")).JSON()}
+		}, checkLua),
 		hx.NewSub("strings", 2000, 15000, func(t *rapid.T) StrCase {
 			return StrCase{S: strings.ToValidUTF8(rapid.OneOf(rapid.Just(""), rapid.SampledFrom(hostile), rapid.StringN(0, 20, 60)).Draw(t, "s"), "?")}
 		}, checkStr),
